@@ -288,6 +288,48 @@ fn api_names_leg(acc: &mut Acc) {
         Ok(other) => acc.machinery(format!("many-symbols: {:?}", other.map(|r| r.map(|o| o.len()).map_err(|e| e.to_string())))),
         Err(p) => acc.violation(Violation { sig: "many-symbols/panic".into(), what: format!("panicked: {p}"), case: json!({"kind": "api-step"}), size: 1 }),
     }
+    // the same for input fields: an input with 100 000 random-looking keys (and field steps into a
+    // nested map of 2 000): every reference / field step returns its own entry, an
+    // absent name is an unknown reference / none
+    let nf = 100_000usize;
+    // (a field step clones the map it steps into, so the nested map is kept at 2 000 entries)
+    let ni = 2_000usize;
+    let inner: BTreeMap<String, Value> = (0..ni).map(|i| (name(i), Value::Int(-(i as i128)))).collect();
+    let mut top: BTreeMap<String, Value> = (0..nf).map(|i| (name(i), Value::Int(i as i128))).collect();
+    top.insert("inner".into(), Value::Map(inner));
+    let facts = Value::Map(top);
+    let refs = Expr::Vec((0..nf).map(|i| Expr::reff(name(i))).collect());
+    let steps = Expr::Vec((0..ni).map(|i| Expr::index(Expr::reff("inner"), reval::expr::Index::Map(name(i)))).collect());
+    let absent = Expr::Vec(vec![Expr::index(Expr::reff("inner"), reval::expr::Index::Map(name(nf + 1))), Expr::index(Expr::reff("facts"), reval::expr::Index::Map(name(nf + 2)))]);
+    let absent_ref = Expr::reff(name(nf + 3));
+    let rs = match ruleset().with_rules([Rule::new("refs", BTreeMap::new(), refs), Rule::new("steps", BTreeMap::new(), steps), Rule::new("absent", BTreeMap::new(), absent), Rule::new("absent-ref", BTreeMap::new(), absent_ref)]) {
+        Ok(b) => b.build(),
+        Err(e) => return acc.machinery(format!("many-fields: {e}")),
+    };
+    acc.count("executions", 1);
+    match catch(|| block_on(rs.evaluate_value(&facts))) {
+        Ok(Ok(Ok(out))) if out.len() == 4 => {
+            let wrong = |o: &reval::Result<Value>, sign: i128| -> Option<String> {
+                match o {
+                    Ok(Value::Vec(items)) if items.len() == (if sign > 0 { nf } else { ni }) => items.iter().enumerate().find(|(i, v)| **v != Value::Int(sign * *i as i128)).map(|(i, v)| format!("`{}` (holding i{}) resolves to {v:?}", name(i), sign * i as i128)),
+                    other => Some(format!("outcome {:?}", other.as_ref().map(|_| "..").map_err(|e| e.to_string()))),
+                }
+            };
+            if let Some(d) = wrong(&out[0].value, 1).or_else(|| wrong(&out[1].value, -1)) {
+                acc.violation(Violation { sig: "many-fields/wrong-value".into(), what: format!("input with {nf} fields: {d}"), case: json!({"kind": "api-step"}), size: 1 });
+            } else if !matches!(&out[2].value, Ok(Value::Vec(items)) if *items == vec![Value::None, Value::None]) || !matches!(&out[3].value, Err(reval::Error::UnknownRef(s)) if *s == name(nf + 3)) {
+                acc.violation(Violation {
+                    sig: "many-fields/absent".into(),
+                    what: format!("input with {nf} fields: absent field steps give {:?}, an absent reference gives {:?}", out[2].value.as_ref().map_err(|e| e.to_string()), out[3].value.as_ref().map_err(|e| e.to_string())),
+                    case: json!({"kind": "api-step"}),
+                    size: 1,
+                });
+            }
+            acc.outcome("many-fields");
+        }
+        Ok(other) => acc.machinery(format!("many-fields: {:?}", other.map(|r| r.map(|o| o.len()).map_err(|e| e.to_string())))),
+        Err(p) => acc.violation(Violation { sig: "many-fields/panic".into(), what: format!("panicked: {p}"), case: json!({"kind": "api-step"}), size: 1 }),
+    }
 }
 
 fn reval_error_clone(e: &reval::Error) -> reval::Error {
